@@ -52,7 +52,7 @@ def regOffset (r : RegV) : Nat := if r.kind == kindGP && r.mask == 2 then 1 else
 
 def judgeSel (d : Dir) (t : TypeInfo) (r : RegV) (outcome : List String) : String :=
   match outcome with
-  | ["error"] => "ok"
+  | ["error"] => if mustMove F d t r then "bad-error-where-a-move-exists" else "ok"
   | ["op", name] =>
     match opcOfName name with
     | none => "bad-unmodelled-opcode " ++ name
